@@ -15,7 +15,7 @@ r1="$(cargo test --offline --test seed_demo 2>&1 | grep -E "^test result" | tail
 echo "unpatched demo: $r1"
 echo "$r1" | grep -q "ok\." || { echo "REJECT: demo does not pass on the unchanged tree"; exit 1; }
 rm tests/seed_demo.rs
-git apply "$SD/patch.diff" || { echo "REJECT: patch does not apply"; exit 1; }
+git apply "$SD/patch.diff" 2>/dev/null || git apply --3way "$SD/patch.diff" >/dev/null 2>&1 || { echo "REJECT: patch does not apply"; exit 1; }
 r2="$(cargo test --offline 2>&1 | grep -E "^test result" | awk '{p+=$4; f+=$6} END {print p" passed "f" failed"}')"
 echo "patched suite: $r2"
 echo "$r2" | grep -q " 0 failed" || { echo "REJECT: existing suite fails with the patch"; exit 1; }
